@@ -29,6 +29,9 @@ pub enum Op {
     Eq,
     /// JitterRng::test_timer followed by set_rounds(result) (C14 hostile histories)
     TestTimer,
+    /// like CloneThen, but the clone is made with `Clone::clone_from` into an already used
+    /// generator (one that holds a pending half where the type has such a thing)
+    CloneFromThen(Box<Op>),
 }
 
 impl Op {
@@ -47,6 +50,7 @@ impl Op {
             Op::Debug => 11,
             Op::Eq => 12,
             Op::TestTimer => 13,
+            Op::CloneFromThen(_) => 14,
         }
     }
 }
